@@ -1,2 +1,56 @@
-From Murex Require Import Check.C36.
-Example C36_stub_nonvacuous : True. Proof. exact I. Qed.
+(* C36 — `%[ ]` and `%{ }` literals build the same value as JSON.
+   Only theorem statements here; proofs live in Proof/Literal.v. *)
+From Murex Require Import Base.Outcome Base.Bytes Model.ByteStr Model.Literal Check.C36 Proof.Literal.
+
+(* A literal written as a JSON array or object of the property's grammar —
+   null, true, false, numbers, double-quoted strings without murex escapes,
+   arrays and objects nested to any depth — printed with any inline spacing
+   variant (spaces, tabs, \r around brackets, commas and colons) evaluates to
+   exactly the value the document denotes (objects: members in key order, a
+   repeated key keeping its last value, as encoding/json does). *)
+Theorem C36_literal_eq_json : forall st, style_ok st = true ->
+  forall j, restricted j = true ->
+  match j with JArr _ | JObj _ => True | _ => False end ->
+  lit_parse (37%N :: print st j) = Ok (canon j).
+Proof. exact literal_eq_json. Qed.
+Print Assumptions C36_literal_eq_json.
+
+(* parseArrayMaker's `..` range detection never fires on such text: its scan
+   stops early or ends with the range flag unset, for a JSON array followed by
+   anything. *)
+Theorem C36_arraymaker_never_fires_on_json : forall st, style_ok st = true ->
+  forall l rest, restricted (JArr l) = true ->
+  match print st (JArr l) ++ rest with
+  | _ :: r => maker_scan r 1 false = MkEarly \/ maker_scan r 1 false = MkEnd false
+  | [] => False
+  end.
+Proof. exact arraymaker_never_fires. Qed.
+Print Assumptions C36_arraymaker_never_fires_on_json.
+
+(* every element / member value is consumed exactly once by the array loop and
+   by the object loop (the inductive invariant of the headline theorem) *)
+Theorem C36_value_consumed : forall st, style_ok st = true ->
+  forall j, restricted j = true -> elem_ok st j /\ val_ok st j.
+Proof. exact both. Qed.
+Print Assumptions C36_value_consumed.
+
+(* Non-vacuity: the grammar contains real documents (numbers such as -12.5e+3,
+   strings with `..`, brackets and multi-byte characters, nested objects with a
+   repeated key), the literal evaluates, a `..` outside a string does fire the
+   array maker, and spec_ok rejects a wrong value. *)
+Local Open Scope N_scope.
+Definition C36_sample : json :=
+  JArr [JNum [45; 49; 50; 46; 53; 101; 43; 51]; JStr [97; 46; 46; 98; 91; 195; 169]; JNull;
+        JObj [([107], JBool true); ([97], JArr []); ([107], JNum [48])]].
+Definition C36_loose : style :=
+  {| s_open := [32]; s_cb := [32]; s_ca := [32; 9]; s_colb := [32]; s_cola := [32; 32]; s_close := [13; 32] |}.
+Example C36_nonvacuous :
+  restricted C36_sample = true /\ style_ok C36_loose = true /\
+  lit_parse (37 :: print C36_loose C36_sample) =
+    Ok (JArr [JNum [45; 49; 50; 46; 53; 101; 43; 51]; JStr [97; 46; 46; 98; 91; 195; 169]; JNull;
+              JObj [([97], JArr []); ([107], JNum [48])]]) /\
+  lit_parse [37; 91; 49; 46; 46; 51; 93] = Err 8 /\
+  spec_ok {| c_text := [37; 91; 110; 117; 108; 108; 93]; c_nums := [];
+             c_obs := {| o_ok := true; o_val := VArr [VStr [110; 117; 108; 108]];
+                         o_jok := true; o_jval := VArr [VNull] |} |} = false.
+Proof. vm_compute. repeat split. Qed.
